@@ -31,7 +31,14 @@ impl Term for f64 {
         TermKind::Literal
     }
     fn lexical_form(&self) -> Option<MownStr> {
-        Some(MownStr::from(format!("{}", self)))
+        // NB: Rust displays infinity as "inf", which is not a valid xsd:double
+        Some(if *self == f64::INFINITY {
+            MownStr::from_ref("INF")
+        } else if *self == f64::NEG_INFINITY {
+            MownStr::from_ref("-INF")
+        } else {
+            MownStr::from(format!("{}", self))
+        })
     }
     fn datatype(&self) -> Option<IriRef<MownStr>> {
         Some(IriRef::new_unchecked(MownStr::from_ref(&XSD_DOUBLE)))
@@ -238,14 +245,36 @@ impl TryFromTerm for f64 {
         if let Some(lex) = term.lexical_form() {
             if Term::eq(&term.datatype().unwrap(), xsd::double)
                 || Term::eq(&term.datatype().unwrap(), xsd::float)
-                || Term::eq(&term.datatype().unwrap(), xsd::decimal)
             {
-                lex.parse()
+                parse_xsd_double(&lex, true)
+            } else if Term::eq(&term.datatype().unwrap(), xsd::decimal) {
+                parse_xsd_double(&lex, false)
             } else {
                 "wrong datatype".parse()
             }
         } else {
             "not a literal".parse()
+        }
+    }
+}
+
+/// Parse the lexical form of an xsd:double or xsd:float (if `special` is true),
+/// or of an xsd:decimal (if `special` is false: no exponent, no INF or NaN).
+///
+/// NB: `str::parse::<f64>` is more lenient than XSD (it accepts "inf", "infinity", "nan" in any case).
+fn parse_xsd_double(lex: &str, special: bool) -> Result<f64, std::num::ParseFloatError> {
+    match lex {
+        "INF" | "+INF" if special => Ok(f64::INFINITY),
+        "-INF" if special => Ok(f64::NEG_INFINITY),
+        "NaN" if special => Ok(f64::NAN),
+        _ => {
+            if lex.bytes().all(|b| {
+                b.is_ascii_digit() || matches!(b, b'+' | b'-' | b'.') || (special && matches!(b, b'e' | b'E'))
+            }) {
+                lex.parse()
+            } else {
+                "invalid lexical form".parse()
+            }
         }
     }
 }
